@@ -280,6 +280,11 @@ def run_one(m, jobs):
             rc, out = sh([VERIF + "/check", cid, "--tier", "quick"], cwd=VERIF, env=env2, timeout=420)
             viol = [l for l in out.splitlines() if l.startswith("VIOLATION")]
             tried.append([cid, rc])
+            if sum(1 for t in tried if t[1] == 124) >= 2:
+                # every case hangs until the per-case guard: the checks cannot judge this one
+                res["status"] = "timeout"
+                res["tried"] = tried
+                return res
             if rc == 1 and viol:
                 res["status"] = "detected"
                 res["by"] = cid
@@ -332,7 +337,9 @@ def main():
         todo = [m for m in muts if (m[0], tuple(m[1])) in sites]
     head = sh(["git", "-C", REPO, "rev-parse", "--short", "HEAD"])[1].strip()
     with cf.ThreadPoolExecutor(max_workers=a.par) as ex, open(rpath, "a") as fh:
-        for r in ex.map(lambda m: run_one(m, a.jobs), todo):
+        futs = [ex.submit(run_one, m, a.jobs) for m in todo]
+        for fut in cf.as_completed(futs):  # (in order of completion: one slow mutant must not
+            r = fut.result()               #  hold back the records of the others)
             r["base"] = head
             fh.write(json.dumps(r) + "\n"); fh.flush()
             print(r.get("status"), r["file"], r.get("line"), r.get("op"), r.get("desc"), r.get("by", ""), flush=True)
